@@ -59,6 +59,13 @@ def programs(tier):
                 for ti in ("a0", "e0"):
                     p, exact = g1_program(kind, do, gi, ti)
                     yield (f"g1-{kind}-{'open' if do else 'closed'}-{gi}-{ti}", p, e, dict(dag=True, exact=exact, horizon=8))
+    # explicit edges: the gate->target pairs are also listed as (ordering-only) edges
+    for kind in ("ifelse2", "route2END"):
+        for do in (True, False):
+            p, exact = g1_program(kind, do, "a0", "a0")
+            p["nodes"] = [n for n in p["nodes"] if n["id"] != "snk"]
+            p["edges"] = [["src", "gt"], ["src", "p"], ["src", "pq"], ["gt", "p"], ["gt", "pq"]]
+            yield (f"explicit-edges-{kind}-{'open' if do else 'closed'}", p, e, dict(dag=True, exact=exact, horizon=8))
     for o1 in (True, False):
         for o2 in (True, False):
             for i1 in ("a0", "e0"):
@@ -244,6 +251,7 @@ def gate_violations(prog, x, meta):
     for c in h.calls:
         if c.kind in ("ifelse", "route"):
             gate_steps.setdefault((c.run_id, c.nid), set()).add(c.step)
+    steps_by = {(t.run_id, t.step): t for t in h.steps}
     started = {}
     for c in h.calls:
         started.setdefault((c.run_id, c.nid), []).append(c)
@@ -251,7 +259,17 @@ def gate_violations(prog, x, meta):
         if not gates:
             continue
         ok = False
+        tok = steps_by.get((c.run_id, c.step))
         for g in gates:
+            # "when a gate and its targets become runnable together the gate decides first": a controlling gate that has
+            # not run yet in this run, has every input available before this step, waits for nothing, and is itself either
+            # ungated or held only by default-open gates that have not decided either, is runnable now
+            not_yet = lambda gid: all(st > c.step for st in gate_steps.get((c.run_id, gid), ()))  # noqa: E731
+            if tok is not None and not_yet(g["id"]) and not g.get("wait_for"):
+                gnode = tok.graph._nodes.get(g.get("name", g["id"]))
+                outer = ctrl_all.get(g["id"], [])
+                if gnode is not None and all((p in tok.pre_values) or gnode.has_default_for(p) or p in tok.graph.inputs.bound for p in gnode.inputs) and all(o.get("default_open", True) and all(st >= c.step for st in gate_steps.get((c.run_id, o["id"]), ())) for o in outer):
+                    out.append(({"symptom": "target-started-while-its-gate-was-runnable"}, f"target {c.nid} started in step {c.step} although its gate {g['id']} was runnable in that step and had not decided yet"))
             if c.step in gate_steps.get((c.run_id, g["id"]), ()):
                 out.append(({"symptom": "target-started-in-gate-step"}, f"target {c.nid} started in step {c.step}, the same step in which its gate {g['id']} ran"))
             prior = [d for (st, d) in decs.get((c.run_id, g["id"]), []) if st < c.step]
